@@ -80,6 +80,29 @@ Qed.
 Lemma write_frame_over p : (size_limit < N.of_nat (length p))%N -> write_frame p = Err.
 Proof. intros H. unfold write_frame. apply N.ltb_lt in H. rewrite H. reflexivity. Qed.
 
+(* the write loop emits the whole buffer whatever positive amounts the transport accepts per call *)
+Lemma write_loop_all : forall fuel buf lims,
+  (length buf <= fuel)%nat -> Forall (fun l => 1 <= l)%nat lims -> write_loop fuel buf lims = buf.
+Proof.
+  induction fuel as [|f IH]; intros buf lims Hf Hl.
+  - destruct buf; [reflexivity|cbn in Hf; lia].
+  - cbn [write_loop]. destruct buf as [|b buf]; [reflexivity|].
+    set (k := match lims with [] => length (b :: buf) | l :: _ => Nat.min l (length (b :: buf)) end).
+    assert (Hk : (1 <= k <= length (b :: buf))%nat).
+    { unfold k. destruct lims as [|l lims]; [cbn; lia|]. inversion Hl; subst. cbn [length] in *. lia. }
+    rewrite IH.
+    + apply firstn_skipn.
+    + rewrite skipn_length. cbn [length] in *. lia.
+    + destruct lims as [|l lims]; [constructor|inversion Hl; assumption].
+Qed.
+
+Lemma write_frame_short_ok p lims :
+  valid_payload p -> Forall (fun l => 1 <= l)%nat lims -> write_frame_short p lims = Ok (frame p).
+Proof.
+  intros Hp Hl. unfold write_frame_short. rewrite (write_frame_ok p Hp). f_equal.
+  apply write_loop_all; [lia|exact Hl].
+Qed.
+
 (* ---------------------------------------------------------------- one frame *)
 
 Lemma read_frame_ok (c : conn) (p tail : list N) :
